@@ -86,6 +86,42 @@ def driver_location_state(prog, loc):
     return "carried", acc[0][3]
 
 
+def s3(prog, ctx):
+    """A read grouper is built per experiment: the labels it hands out may come from its own experiment's label table only."""
+    from ..engine import taint, flow
+    RG = "src/read_groups.py"
+    n = 0
+    for m, c in prog.subclasses_of("AbstractReadGrouper"):
+        init = prog.methods_of(c, inherited=False).get("__init__")
+        if init is None:
+            continue
+        params = [a.arg for a in init.args.args]
+        if "sample" not in params:
+            continue
+        n += 1
+        bad = []
+
+        def look(st, env, bad=bad):
+            nodes = [st.iter] if isinstance(st, ast.For) else [st]
+            for top in nodes:
+                for x in ast.walk(top):
+                    if isinstance(x, ast.Attribute) and isinstance(x.ctx, ast.Load) and "readable_name" in x.attr and dotted(x.value) != "self":
+                        lab = taint.influence(x.value, env)
+                        if "all-experiments" in lab:
+                            bad.append((x, st))
+        for pth in flow.paths(init):
+            taint.run(pth, {"sample": {"own"}, "args": {"all-experiments"}}, on_stmt=look)
+        if bad:
+            x, st = bad[0]
+            ctx.fail("S3", x, "%s.__init__" % c.name, src(st)[:100],
+                     "the label table %s is read from an object taken from the experiments of the whole run (args...), not from this grouper's "
+                     "own experiment: the group names of one experiment depend on which other experiments are processed in the same run, and "
+                     "in which order" % src(x))
+        else:
+            ctx.ok("S3", "%s:%d" % (m.rel, init.lineno), "%s.__init__ reads label tables of its own experiment only" % c.name)
+    ctx.floor("S3", "per-experiment grouper constructors", n, 1)
+
+
 def reset_sites(prog, cname, attr):
     """Unconditional `Cls.attr = <fresh>` at top level of a per-experiment / per-task function."""
     out = []
@@ -363,6 +399,10 @@ def run(prog, ctx):
                    "mutable state that is modified must be re-initialised per experiment/task or be listed as benign with a reason")
     s1_driver(prog, ctx)
     s1_class_state(prog, ctx)
+    ctx.rule("S3", "path-wise influence propagation in the constructors of the per-experiment read groupers: a label table "
+                   "(<x>.readable_names*) is read only from objects that depend on the constructor's own `sample`, never from an "
+                   "object reached through the run-wide args (other experiments)")
+    s3(prog, ctx)
     ctx.extra["benign_class_state"] = {"%s.%s" % k: v for k, v in BENIGN_CLASS_STATE.items()}
     ctx.assume("equality with stand-alone runs and the combined_* tables (pandas) are not decided")
     ctx.assume("conditions on run constants (args.* never written inside the loop) take the same branch in every iteration")
